@@ -151,6 +151,9 @@ def run(ctx: Ctx):
 
     # ---- S5 both batching strategies honour the same loader options ----------------------------------------------
     _strategy_arms(ctx, rel)
+
+    # ---- S2d the utterance sampler reports as many indices as it yields (non-bucketed loaders compute len() from it) ----
+    _sampler_len(ctx, rel)
     plumbing(ctx, "S1")
     return dict(
         explanation=(
@@ -502,6 +505,33 @@ def _strategy_arms(ctx: Ctx, rel: str):
                    f"(left to its default, short leftover batches are delivered although drop_last=True)", rel,
                    calls_b[0].lineno, sample=got)
     col.floor("strategy_branches", arms_seen, 2)
+
+
+def _sampler_len(ctx: Ctx, rel: str):
+    """len(loader) without buckets is BatchSampler's: ceil or floor of len(sampler) / batch size, while the batches come from the
+    indices the sampler yields. The two agree iff the sampler's __len__ is the number of indices its rank share holds - decided on
+    the sampler table (props/c13_table.py: constructor, share and __len__ interpreted for every mode x process-group state x size)."""
+    from sa.inteval import NotEvaluable
+    from .c13_table import WORLD, SamplerTable
+    col, pkg, res = ctx.col, ctx.pkg, ctx.res
+    base = pkg.cls(f"{MOD}::AbstractEpochSampler")
+    init = res.find_method(base, "__init__")[0]
+    g = res.find_method(base, "get_samples_for_epoch")[0]
+    ln = res.find_method(base, "__len__")[0]
+    src_param = [p_.name for p_ in init.params if p_.name != "self"][0]
+    tab = SamplerTable(pkg.module(MOD).tree, base.node, init.node, g.node, ln.node, "on_uneven_distributed", src_param)
+    try:
+        rows = [r_ for r_ in tab.rows() if r_["slice"] is not None]
+    except NotEvaluable as e:
+        col.undecided(f"{rel}::{ln.qualname}: the sampler constructor / rank share is outside the interpreted fragment ({e})")
+        return
+    col.floor("sampler_length_rows", len(rows), 60)
+    bad = [r_ for r_ in rows if r_["len"] != len(r_["slice"])]
+    col.ob("G12", "S2", f"{rel}::{ln.qualname}::length-is-the-number-of-indices-yielded", not bad,
+           (f"mode={bad[0]['mode']!r}, group rank {bad[0]['group_rank']} of {WORLD} (available={bad[0]['available']}, initialised={bad[0]['initialised']}), "
+            f"{bad[0]['n']} utterances: len(sampler) is {bad[0]['len']} but the rank yields {len(bad[0]['slice'])} indices - a loader without "
+            f"length buckets reports a number of batches it does not deliver, and replicas deliver different numbers") if bad else "", rel, ln.line,
+           sample=dict(rows=len(rows), mismatching=len(bad)))
 
 
 def _len_memo(ctx: Ctx, rel: str):
